@@ -2,14 +2,16 @@
 
   1. TLC explores the per-call mechanism machine of Term.tla over EVERY cell of the table
      (entry point x receiver kind x severity x logger level x noInterrupt x interruptAlways x
-     process mode x format x other flags x input class), checks that the mechanism implements
-     the statement (invariants + action properties) and exports the table with the outcome the
-     statement demands for each cell.
+     process mode x format x other flags x input class x destination class x message size),
+     checks that the mechanism implements the statement (invariants + action properties; among
+     them: termination does not depend on where the record goes or on how long the message is)
+     and exports the table with the outcome the statement demands for each cell.
   2. Deliberately wrong mechanisms (Mut) must be rejected by TLC - the invariants are not vacuous.
   3. The Go worker executes every cell on the library in child processes of the cell's process
      mode (batches; a cell expected to exit is the last of its batch; write-ahead markers and
      write-through recorders) and records what it observed.
-  4. TLC validates the recording against the statement predicates (TermTrace.tla).
+  4. TLC validates the recording against the statement predicates (TermTrace.tla); the "record
+     written first" clause is evaluated where the cell has a recording destination for the severity.
 Expected outcomes exist only in the specification; Python uses them for scheduling batches.
 """
 import concurrent.futures
@@ -25,19 +27,57 @@ CUSTOMS = {13: 2, 14: 1}          # registered custom levels: 13 treated as Erro
 CUSTOM_TITLES = {13: "swell", 14: "doom"}
 SEV = {0: "Panic", 1: "Fatal", 2: "Error", 3: "Warn", 4: "Info", 5: "Debug", 6: "Trace", 7: "Off", 8: "Always",
        9: "OK", 10: "Success", 11: "Fail", 12: "Max", 13: "Custom13asError", 14: "Custom14asFatal"}
-INVARIANTS = "TypeOK WriteThenTerminate OnlyWhenStated FinalMatchesStatement NotAdmittedSilent"
+INVARIANTS = "TypeOK WriteThenTerminate OnlyWhenStated FinalMatchesStatement NotAdmittedSilent DestinationsDoNotMatter"
 PROPERTIES = "TermOrder NothingAfterEnd"
 # wrong mechanisms and what must reject them
 WITNESSES = {"exitFirst": "exit before the record is printed", "status": "other exit status",
              "panicValue": "panic value is not the message", "anyBits": "noInterrupt tested with any-bits on both flags",
-             "errTerm": "Error terminates under interruptAlways", "noGate": "FatalContext without level gate"}
+             "errTerm": "Error terminates under interruptAlways", "noGate": "FatalContext without level gate",
+             "discardGate": "the gate also skips a call whose destinations are all io.Discard / empty",
+             "truncate": "a message longer than 64 KiB is clamped before it is printed and handed to panic",
+             # the same two against the relational invariant alone
+             "discardGate@DestinationsDoNotMatter": "outcome depends on the destination class",
+             "truncate@DestinationsDoNotMatter": "outcome depends on the message size"}
 MAX_BATCH = 250
-CELL_KEYS = ["ep", "recv", "r", "L", "ni", "ia", "testing", "fmt", "base", "inp"]
+CELL_KEYS = ["ep", "recv", "r", "L", "ni", "ia", "testing", "fmt", "base", "inp", "dst", "size"]
 
 
 BASES = ["std", "empty", "all"]
 INPUTS = ["plain", "kv", "attr"]
-ALL_DIMS = {(f, b, x) for f in FORMATS for b in BASES for x in INPUTS + ["huge", "nilctx"]}
+ALL_INPUTS = INPUTS + ["huge", "nilctx"]
+# destination classes (Term.tla DstCfg) and message sizes (Term.tla MsgSizes); the default is ("rec", 0)
+DSTS = ["rec", "dflt", "discN", "discE", "discBoth", "emptied", "lvlrec", "lvldisc", "lvlemptied", "mixed"]
+SIZES = [0, 65535, 65536, 65537, 102400, 307200]
+ALL_DIMS = {(f, b, x, "rec", 0) for f in FORMATS for b in BASES for x in ALL_INPUTS}
+
+
+def wide_dims(s, thorough):
+    """The tuples that vary destination class / message size.  quick: every other destination class
+    once with the short message and every size once with recording writers (format, flags and input
+    rotate with the position and the seed), plus two destination x size pairs.  thorough: every class
+    and every size with every format, and every destination x size pair once."""
+    def rot(k):
+        return FORMATS[(k + s) % 3], BASES[(k // 3 + s) % 3], ALL_INPUTS[(k + 2 * s) % 5]
+    dims, k = set(), 0
+    other, big = DSTS[1:], SIZES[1:]
+    if not thorough:
+        for d in other:
+            dims.add(rot(k) + (d, 0)); k += 1
+        for z in big:
+            dims.add(rot(k) + ("rec", z)); k += 1
+        dims.add(rot(k) + (other[s % len(other)], big[s % len(big)])); k += 1
+        dims.add(rot(k) + ("discBoth", 65537)); k += 1
+        return dims
+    for d in other:
+        for j in range(3):
+            dims.add((FORMATS[j],) + rot(k)[1:] + (d, 0)); k += 1
+    for z in big:
+        for j in range(3):
+            dims.add((FORMATS[j],) + rot(k)[1:] + ("rec", z)); k += 1
+    for d in other:
+        for z in big:
+            dims.add(rot(k) + (d, z)); k += 1
+    return dims
 
 
 def table_consts(ctx, full=False):
@@ -51,13 +91,28 @@ def table_consts(ctx, full=False):
         dims = {(FORMATS[i], BASES[j], INPUTS[(i + j + s) % 3]) for i in range(3) for j in range(3)}
         dims |= {(FORMATS[i], BASES[(i + s) % 3], "huge") for i in range(3)}       # > 1024 attributes in one call
         dims |= {(FORMATS[i], BASES[(i + s + 1) % 3], "nilctx") for i in range(3)}   # nil context + registered context keys
-        return dict(LoggerLevels=levels, Dims=dims, NegDims={(FORMATS[s % 3], "std", "plain")}, Customs=Fn(CUSTOMS))
-    return dict(LoggerLevels=set(range(13)), Dims=ALL_DIMS, NegDims=ALL_DIMS, Customs=Fn(CUSTOMS))
+        dims = {d + ("rec", 0) for d in dims} | wide_dims(s, False)
+        return dict(LoggerLevels=levels, Dims=dims, NegDims={(FORMATS[s % 3], "std", "plain", "rec", 0)},
+                    WideLevels={0, 1, 7, [2, 4, 8][s % 3]}, Customs=Fn(CUSTOMS))
+    neg = ALL_DIMS | {(FORMATS[k % 3], BASES[k % 3], "plain", d, z) for k, (d, z) in
+                      enumerate([("discBoth", 0), ("emptied", 0), ("lvldisc", 0), ("rec", 65537)])}
+    return dict(LoggerLevels=set(range(13)), Dims=ALL_DIMS | wide_dims(ctx.seed, True), NegDims=neg,
+                WideLevels={0, 1, 2, 4, 7, 8}, Customs=Fn(CUSTOMS))
+
+
+def replay_consts(cells):
+    """constants of a table that contains exactly the dimensions of the given cells"""
+    dims = {(c["fmt"], c["base"], c["inp"], c["dst"], c["size"]) for c in cells}
+    levels = {c["L"] for c in cells}
+    return dict(LoggerLevels=levels, Dims=dims, NegDims=dims, WideLevels=levels, Customs=Fn(CUSTOMS))
 
 
 def witness_consts():
-    return dict(LoggerLevels={0, 1, 4, 7}, Dims={("logfmt", "std", "plain"), ("logfmt", "std", "kv")},
-                NegDims={("logfmt", "std", "plain")}, Customs=Fn(CUSTOMS))
+    return dict(LoggerLevels={0, 1, 4, 7}, WideLevels={0, 1, 4, 7},
+                Dims={("logfmt", "std", "plain", "rec", 0), ("logfmt", "std", "kv", "rec", 0),
+                      ("logfmt", "std", "plain", "discBoth", 0), ("logfmt", "std", "plain", "emptied", 0),
+                      ("logfmt", "std", "plain", "rec", 65536), ("logfmt", "std", "plain", "rec", 65537)},
+                NegDims={("logfmt", "std", "plain", "rec", 0)}, Customs=Fn(CUSTOMS))
 
 
 def mc_files(name, extends, consts, cfg_lines, plain):
@@ -69,7 +124,8 @@ def model_check(ctx, consts):
     files = mc_files("MC_Term", "Term", consts,
                      ["INIT Init", "NEXT Next", "CHECK_DEADLOCK FALSE", "INVARIANTS " + INVARIANTS,
                       "PROPERTIES " + PROPERTIES], dict(ExportFile='"cells.json"', Mut='"none"'))
-    r = ctx.model_check("MC_Term", "MC_Term.cfg", files=files, workers=4, name="term-mc", timeout=1500)
+    r = ctx.model_check("MC_Term", "MC_Term.cfg", files=files, workers=4 if ctx.quick() else max(4, min(8, NCPU // 2)),
+                        name="term-mc", timeout=1500)
     stats = r.prints("stats")
     if len(stats) != 1:
         raise Undecided("Term: no @@stats line:\n" + r.out[-2000:])
@@ -92,11 +148,12 @@ def witnesses_start(ctx, ex):
     """Every deliberately wrong mechanism must make TLC report a violated invariant/property.
     Started in the background (they are independent of the main run); see witnesses_result."""
     def one(mut):
+        name, _, only = mut.partition("@")
         files = mc_files("MC_W", "Term", witness_consts(),
-                         ["INIT Init", "NEXT Next", "CHECK_DEADLOCK FALSE", "INVARIANTS " + INVARIANTS,
-                          "PROPERTIES " + PROPERTIES], dict(ExportFile='""', Mut='"%s"' % mut))
-        r = ctx.tlc("MC_W", "MC_W.cfg", files=files, workers=1, name="term-witness-" + mut, timeout=300, allow_fail=True,
-                    heap="1g")
+                         ["INIT Init", "NEXT Next", "CHECK_DEADLOCK FALSE", "INVARIANTS " + (only or INVARIANTS)] +
+                         ([] if only else ["PROPERTIES " + PROPERTIES]), dict(ExportFile='""', Mut='"%s"' % name))
+        r = ctx.tlc("MC_W", "MC_W.cfg", files=files, workers=1, name="term-witness-" + mut.replace("@", "-"), timeout=300,
+                    allow_fail=True, heap="1g")
         import re
         hit = r.invariant_violated + re.findall(r"Action property (\S+) is violated", r.out)
         return mut, hit, r
@@ -170,7 +227,8 @@ def validate(ctx, consts, rows, expect_all, name="term-trace"):
     tc = dict(consts)
     tc["TraceFile"] = "trace.ndjson"
     files = mc_files("MCT_Term", "TermTrace", tc,
-                     ["SPECIFICATION TSpec", "CHECK_DEADLOCK FALSE", "INVARIANTS Done " + INVARIANTS],
+                     ["SPECIFICATION TSpec", "CHECK_DEADLOCK FALSE",
+                      "INVARIANTS Done " + INVARIANTS.replace(" DestinationsDoNotMatter", "")],   # (a property of the mechanism)
                      dict(ExportFile='""', Mut='"none"', ExpectAll="TRUE" if expect_all else "FALSE"))
     r = ctx.tlc("MCT_Term", "MCT_Term.cfg", files=files, copy={tp: "trace.ndjson"}, workers=1, name=name,
                 timeout=3000, heap="12g", allow_fail=True)
@@ -185,13 +243,30 @@ def validate(ctx, consts, rows, expect_all, name="term-trace"):
 
 
 def describe(o):
-    return "%s%s(%s) on a %s logger at level %s, noInterrupt=%s interruptAlways=%s, %s process, %s, flags=%s, input=%s" % (
+    return ("%s%s(%s) on a %s logger at level %s, noInterrupt=%s interruptAlways=%s, %s process, %s, flags=%s, input=%s, "
+            "destinations=%s, message of %s") % (
         "slog." if o["recv"].startswith("pkg") else "", o["ep"], SEV.get(o["r"], o["r"]), o["recv"], SEV.get(o["L"], o["L"]),
-        o["ni"], o["ia"], "go-test" if o["testing"] else "production", o["fmt"], o["base"], o["inp"])
+        o["ni"], o["ia"], "go-test" if o["testing"] else "production", o["fmt"], o["base"], o["inp"], o.get("dst", "rec"),
+        "%d bytes" % o["size"] if o.get("size") else "a few bytes")
 
 
-def report(ctx, verdict, rows, seed, prefixes=None):
+CALL_KEYS = ["ep", "recv", "r", "L", "ni", "ia", "testing"]
+
+
+def size_class(z):
+    return "<=64KiB" if z <= 65536 else ">64KiB"
+
+
+def report(ctx, verdict, rows, seed, prefixes=None, recorded_key=None):
     by_id = {o["id"]: o for o in rows}
+    bad_ids = {b["id"] for b in verdict["bad"]}
+    # naming only: a failing cell with another destination class / a long message is filed under that
+    # class when the same call with the default dimensions (recording writers, short message) passed
+    default_ok, default_bad = set(), set()
+    for o in rows:
+        if o.get("dst", "rec") == "rec" and not o.get("size"):
+            (default_bad if o["id"] in bad_ids else default_ok).add(tuple(o[k] for k in CALL_KEYS))
+    split = {tuple(k) for k in verdict.get("split", [])}
     items = []
     for b in sorted(verdict["bad"], key=lambda b: b["id"]):
         o = by_id[b["id"]]
@@ -201,6 +276,15 @@ def report(ctx, verdict, rows, seed, prefixes=None):
         except Exception:
             exp_out = "?"
         key = "%s:%s:%s:%s->%s" % (o["ep"], "pkg" if o["recv"].startswith("pkg") else "method", "+".join(b["why"]), exp_out, o["out"])
+        call = tuple(o[k] for k in CALL_KEYS)
+        if (o.get("dst", "rec") != "rec" or o.get("size")) and call in default_ok and call not in default_bad:
+            if o.get("dst", "rec") != "rec":
+                key += ":dst=" + o["dst"]
+            if o.get("size"):
+                key += ":msg" + size_class(o["size"])
+        if recorded_key and recorded_key.startswith(key):     # replay: the class the original run filed it under
+            key = recorded_key
+        b = dict(b, split=tuple(o[k] for k in ("r", "L", "ni", "ia", "testing")) in split)
         items.append((key, o, b, exp))
     # one representative of every failure class first, so that the printed head shows the classes
     seen, first, rest = set(), [], []
@@ -209,9 +293,11 @@ def report(ctx, verdict, rows, seed, prefixes=None):
         seen.add(it[0])
     for key, o, b, exp in first + rest:
         obs = {k: o.get(k) for k in ("out", "status", "pv", "nrec", "rec", "note", "pos")}
-        what = "%s: observed %s ; the specification expects %s (failed: %s)" % (describe(o), json.dumps(obs), exp, ", ".join(b["why"]))
+        what = "%s: observed %s ; the specification expects %s (failed: %s)%s" % (
+            describe(o), json.dumps(obs), exp, ", ".join(b["why"]),
+            " ; calls of this severity/level/flags/mode did not all end the same way" if b["split"] else "")
         ctx.finding(key, what, dict(kind="term", seed=seed, cell=cell_of(o), prefix=(prefixes or {}).get(o["id"], []),
-                                    observed=obs, expected=exp))
+                                    observed=obs, expected=exp, key=key))
     if items:
         ctx.extra["failure_classes"] = sorted(seen)
 
@@ -230,6 +316,11 @@ def run(ctx, replay):
     rows, spawns = execute(ctx, batches, ctx.seed)
     if [o["id"] for o in rows] != [c["id"] for c in table]:
         raise Undecided("worker observed %d cells, the table has %d (or ids differ)" % (len(rows), len(table)))
+    # the log handed to TLC has one line per cell of the table, with the cell's own coordinates (TermTrace
+    # counts the lines that are cells of the table; that they are pairwise different is established here)
+    if any(o[k] != c[k] for o, c in zip(rows, table) for k in CELL_KEYS) or \
+            len({tuple(c[k] for k in CELL_KEYS) for c in table}) != len(table):
+        raise Undecided("the observation log does not carry the coordinates of the table's cells")
     verdict = validate(ctx, consts, rows, True)
     wit = witnesses_result(wfut)
     pool.shutdown()
@@ -252,9 +343,13 @@ def run(ctx, replay):
     term = [o for o in rows if o["out"] != "ret"]
     for o in ([x for x in term if x["out"] == "exit"][:1] + [x for x in term if x["out"] == "panic"][:1] +
               [x for x in rows if x["r"] in (0, 1) and x["out"] == "ret" and x["nrec"] == 1][:1] +
-              [x for x in rows if x["r"] in (0, 1) and x["nrec"] == 0][:1]):
+              [x for x in rows if x["r"] in (0, 1) and x["nrec"] == 0][:1] +
+              [x for x in term if x["dst"] in ("discBoth", "emptied", "lvldisc")][:1] + [x for x in term if x["size"] > 65536][:1]):
         ctx.sample({k: o[k] for k in CELL_KEYS + ["out", "status", "pv", "nrec", "rec"]})
     ctx.extra.update(table_stats=stats, process_spawns=spawns,
+                     outcome_is_a_function_of_severity_level_flags_mode=not verdict.get("split"),
+                     destination_classes=sorted({o["dst"] for o in rows}), message_sizes=sorted({o["size"] for o in rows}),
+                     unobservable_record_cells=sum(1 for c in table if c["exp"]["rec"] == "unobservable"),
                      observed=dict(exit=sum(1 for o in rows if o["out"] == "exit"), panic=sum(1 for o in rows if o["out"] == "panic"),
                                    ret=sum(1 for o in rows if o["out"] == "ret"),
                                    complete_records=sum(1 for o in rows if o["rec"] == "complete")),
@@ -267,7 +362,11 @@ def run(ctx, replay):
         "observed through write-through recorders (one write(2) per record), so 'written first' means present in the file "
         "when the process has ended / when the panic is recovered",
         "record completeness is judged by independent decoders (encoding/json, own logfmt tokenizer + strconv.Unquote, "
-        "SGR stripping) on message, level name and the call's attributes; timestamps and caller are not compared here",
+        "SGR stripping) on the whole message (whatever its size), level name and the call's attributes; timestamps and "
+        "caller are not compared here",
+        "the 'record written first' clause is evaluated where the destination class has a recording writer for the severity "
+        "(Term.tla Recording; which device carries Panic/Fatal is property C03's error class) and skipped where every "
+        "destination is io.Discard or the list is empty - termination is checked in every cell",
         "debug/trace modes are switched off after SetLevel (the model's gate has debug mode off)"]
     return ctx.finish(rule="every cell of the TLC-exported table executed once on the library in a child process of its mode "
                            "(cells shuffled per seed into batches, a cell specified to exit ends its batch); outcomes validated by "
@@ -279,8 +378,11 @@ def do_replay(ctx, path):
     with open(path) as fh:
         rp = json.load(fh)["replay"]
     cell, prefix, seed = rp["cell"], rp.get("prefix", []), rp.get("seed", 1)
-    consts = table_consts(ctx, full=True)
     cells = prefix + [cell]
+    for c in cells:            # replay files written before the destination / size dimensions existed
+        c.setdefault("dst", "rec")
+        c.setdefault("size", 0)
+    consts = replay_consts(cells)
     rows, spawns = execute(ctx, {bool(cell["testing"]): [cells], (not cell["testing"]): []}, seed)
     verdict = validate(ctx, consts, rows, False, name="term-replay")
     ctx.traces += 1
@@ -289,5 +391,5 @@ def do_replay(ctx, path):
     ctx.states += 1
     ctx.transitions += len(rows)
     verdict["bad"] = [b for b in verdict["bad"] if b["id"] == cell["id"]] or verdict["bad"]
-    report(ctx, verdict, rows, seed, {cell["id"]: prefix})
+    report(ctx, verdict, rows, seed, {cell["id"]: prefix}, recorded_key=rp.get("key"))
     return ctx.finish(rule="replay of one recorded cell (with the cells that preceded it in its process)", exhaustive=False)
